@@ -28,6 +28,15 @@ For each variant also write a DEMONSTRATION: a small standalone Python program d
 PROCEDURE for each variant: make the edit in the worktree; run the full suite and confirm the exact same results; run the demo and see it fail; save `git -C /tmp/seed-{pid} diff > /tmp/seed-{pid}-out/<variant>/patch.diff`; then `git -C /tmp/seed-{pid} checkout -- .` and confirm the demo passes on the clean tree; go on to the next variant from the clean tree.
 DELIVERABLES in /tmp/seed-{pid}-out/<a|b|c>/ : patch.diff (applies with `git apply` to the clean tree), demo.py, meta.json with keys: property ("{pid}"), summary (one sentence: what the change does), breaks (which clause of the statement becomes false), needs (what exactly is required for it to manifest), suite_result (the pytest summary line you observed with the change), demo_fails_with_change (true/false), demo_passes_without_change (true/false).
 Leave the worktree clean (no diff) at the end. Final reply: for each variant two lines (what it does; what is needed to see it)."""
+import glob
 for pid in sys.argv[1:]:
-    open(f'/tmp/seed-{pid}-out/PROMPT.txt', 'w').write(prompt(pid))
-    print('wrote', pid)
+    text = prompt(pid)
+    taken = []
+    for mf in sorted(glob.glob('/verif/seeded/%s-*/meta.json' % pid)):
+        taken.append('  - ' + json.load(open(mf))['summary'][:300])
+    if taken:
+        text = text.replace("YOUR TASK: produce THREE different changes",
+                            "ALREADY TAKEN (other engineers produced these earlier; yours must use DIFFERENT mechanisms and preferably touch different functions or need different circumstances):\n"
+                            + "\n".join(taken) + "\n\nYOUR TASK: produce THREE different changes")
+    open(f'/tmp/seed-{pid}-out/PROMPT.txt', 'w').write(text)
+    print('wrote', pid, 'taken:', len(taken))
